@@ -463,3 +463,38 @@ def crash_sweep_sessions(tree, seed, tier):
                 out.append({"seed": seed, "run": "crash-%d" % n, "hashseed": hs, "session": invs})
                 n += 1
     return out
+
+
+def cli_shape_plans(tree, seed, tier):
+    """Valid command lines with an unusual shape, each as its own deterministic plan: the same
+    name twice, an extra main file that is a unit / constant header (alone, already selected,
+    together with --noio), au/io.hh as an explicit main file, empty lists."""
+    rng = rng_for(seed, "cli-shapes")
+    tcs = all_toolchains()
+    k = 1 if tier == "quick" else 4
+    shapes = []
+    for _ in range(k):
+        u1, u2, u3 = rng.sample(tree.units, 3)
+        c1 = rng.choice(tree.constants)
+        shapes += [
+            {"units": [u1, u1], "constants": [], "io": True},
+            {"units": [u1, u2, u1, u3, u2], "constants": [c1, c1], "io": False},
+            {"units": [], "constants": [c1, c1], "io": True},
+            {"units": [u1], "constants": [], "io": True, "main_files": ["au/units/%s.hh" % u1]},
+            {"units": [u1], "constants": [], "io": False, "main_files": ["au/units/%s.hh" % u2]},
+            {"units": [], "constants": [], "io": False, "main_files": ["au/units/%s.hh" % u3, "au/constants/%s.hh" % c1]},
+            {"units": [u2], "constants": [], "io": True, "main_files": ["au/io.hh", "au/math.hh"]},
+            {"units": [u2], "constants": [], "io": False, "main_files": ["au/io.hh"]},
+            {"units": "ALL", "constants": [c1], "io": True, "main_files": ["au/units/%s.hh" % u1]},
+        ]
+    plans = []
+    for n, sel in enumerate(shapes):
+        order = ["units", "constants", "noio", "version"]
+        rng.shuffle(order)
+        full = dict({"main_files": [], "version_id": rng.choice(VERSION_IDS + ("id with  two spaces", "v1.0+meta/branch")), "opt_order": order}, **sel)
+        plans.append({
+            "seed": seed, "run": "cli-%d" % n, "hashseed": HASHSEEDS[n % len(HASHSEEDS)], "selection": full,
+            "env": {"listdir": {}, "listdir_default": _listdir_spec(rng), "extra_entries": {}, "clock": ["2026-09-26T12:00:00"], "git": "ok:cli", "stdout_mode": "block", "stdout_bufsize": 4096, "crlf": False, "git_repo": "tracked"},
+            "faults": [], "toolchain": {"a": list(tcs[n % len(tcs)])}, "probe": {"include_order": rng.randrange(1 << 30), "api": []},
+        })
+    return plans
